@@ -5,9 +5,10 @@ A region is addressed structurally: the then-branch of the IfStmt whose conditio
 import re, os
 from tools import cxx2c
 from tools.cxx2c import Lower, Unsupported, kids, qt, qt_sugar, strip, strip_parens, callee_name, norm_type, walk
+from tools.cxx2c import REPO as _REPO
 
 NAME = 'ARITH'
-SRC = '/repo/src/bloch/runtime/runtime_evaluator.cpp'
+SRC = _REPO + '/src/bloch/runtime/runtime_evaluator.cpp'
 NAMESPACE = 'bloch::runtime'
 FUNCS = []
 REGION_SPECS = [('eval_binary', 'bin', 'BinaryExpression'), ('eval_unary', 'unary', 'UnaryExpression'), ('eval_literal', 'lit', 'LiteralExpression')]
